@@ -372,4 +372,11 @@ def _z3v():
 
 
 if __name__ == '__main__':
-    sys.exit(main())
+    try:
+        rc = main()
+    except Exception:
+        import traceback
+        traceback.print_exc()
+        print('HARNESS-ERROR: runner crashed', file=sys.stderr)
+        rc = 3
+    sys.exit(rc)
